@@ -195,7 +195,7 @@ func Small() []Entry {
 		{Kind: policy.Threshold, N: 4, T: 3},
 		policy.NewUnanimity(2),
 		policy.NewUnanimity(3),
-		{Kind: policy.CNF, N: 3, MUS: []uint64{0b001, 0b010, 0b100}},           // = threshold(2,3), non-ideal MSP
+		{Kind: policy.CNF, N: 3, MUS: []uint64{0b001, 0b010, 0b100}},            // = threshold(2,3), non-ideal MSP
 		{Kind: policy.CNF, N: 3, MUS: []uint64{0b001, 0b110}},                   // party 0 and one of {1,2}
 		{Kind: policy.CNF, N: 4, MUS: []uint64{0b0011, 0b1100}},                 // one of {0,1} and one of {2,3}
 		{Kind: policy.CNF, N: 4, MUS: []uint64{0b0001, 0b0110, 0b1010, 0b1100}}, // 0 and one other, or all of 1,2,3
